@@ -871,6 +871,14 @@ def r11(ctx):
     relabel(ctx, "C14.R11", lambda c: c01.closer_matches_opener(c, "C14.R11"), c01.r7)
 
 
+def _r11_parts():
+    from .shared import relabel
+    from .shared import relabel_parts
+    return relabel_parts("C14.R11", lambda c: c01.closer_matches_opener(c, "C14.R11"), c01.r7)
+
+
+r11.parts = _r11_parts
+
 
 def f1(ctx):
     """generic same-name parameter forwarding over this property's modules (see shared.generic_forwarding)."""
